@@ -466,6 +466,7 @@ package bkl
 //@     invariant (= (app (ls merge) (collectK rest "$merge")) (collectK (ls l) "$merge"))                 [C10]
 //@   loop 1
 //@     invariant (=> (= (ls merge) LNil) (= obj obj@loop))   [C06]
+//@   order process1ListMerge#1 popListMapValue#1   -- the referenced lists are inlined first: a {$replace: ..} entry that comes in through a $merge is honoured
 //@   at call process1ListMerge#1
 //@     assert (and (= m@arg elem) (= obj@arg obj) (= (ls merge) (collectK (ls obj@pre) "$merge")))          [C10]
 //@   at call process1ListReplace#1
@@ -521,6 +522,8 @@ package bkl
 //@ func process2Encode(obj, mergeFrom, mergeFromDocs, ec, v, depth) (res, err)
 //@   decreases (- 1002 depth) 1
 //@   property C07
+//@   property C09 shallow   -- which error validate reports depends on map order; only "it failed" may be used (propagated as it is)
+//@   propagates all   [C09] [C07] [C14]
 //@   at call process2EncodeAny#1
 //@     assert (noMarker obj2)                                                                             [C07] [C14]
 //@ func process2Decode(obj, mergeFrom, mergeFromDocs, ec, v, depth) (res, err)
@@ -993,12 +996,14 @@ package bkl
 // ------------------------------------------------------------------------------------------------- normalize.go, process2.go (canonical numbers, C04)
 
 //@ func normalize(obj) (res, err)
+//@   decreases (rank obj) 3
 //@   ensures (=> ((_ is VNum) obj) (or (isErr err) ((_ is VInt) res) ((_ is VFlt) res)))                     [C04]
 //@   ensures (=> ((_ is VI64) obj) (and (not (isErr err)) (= res (VInt (lv obj)))))                          [C04]
 //@   ensures (=> (and (not (isErr err)) (decShape obj)) (canon res))                                         [C04]
 //@   ensures (=> (canon obj) (and (not (isErr err)) (= res obj)))                                            [C04]
 //
 //@ func normalizeMap(obj) (res, err)
+//@   decreases (rank obj) 1
 //@   requires ((_ is VMap) obj)
 //@   ensures (=> (and (not (isErr err)) (decShape obj)) (canon res))                                         [C04]
 //@   ensures (=> (canon obj) (and (not (isErr err)) (= res obj)))                                            [C04]
@@ -1008,6 +1013,7 @@ package bkl
 //@     invariant (=> (canon m) (forall ((j String)) (= (select (mc ret) j) (ite (select visited j) (select (mc m) j) VAbsent))))
 //
 //@ func normalizeList(obj) (res, err)
+//@   decreases (rank obj) 1
 //@   uses canonApp, appNil, snocApp
 //@   ensures (=> (and (not (isErr err)) (decShape obj)) (canon res))                                         [C04]
 //@   ensures (=> (canon obj) (and (not (isErr err)) (= res obj)))                                            [C04]
@@ -1204,7 +1210,7 @@ package bkl
 //@     invariant (= (seqEncErr codecTOML rest idx) (seqEncErr codecTOML (ls vs) 0))
 //
 //@ func tomlUnmarshalStream(in) (res, err)
-//@   property C05
+//@   property C05, C04
 //@   uses appNil, snocApp
 //@   ensures (= (isErr err) (tomlDecE (reSplit (rePat tomlRE) in (- 1))))                                    [C05]
 //@   ensures (=> (not (isErr err)) (= res (VList (tomlDecF (reSplit (rePat tomlRE) in (- 1))))))             [C05]
@@ -1214,7 +1220,7 @@ package bkl
 //@     invariant (= (app (ls ret) (tomlDecF rest)) (tomlDecF (reSplit (rePat tomlRE) in (- 1))))
 //
 //@ func yamlUnmarshalStream(in) (res, err)
-//@   property C05
+//@   property C05, C04
 //@   uses appLen
 //@   ensures (=> (not (isErr err)) (= (llen (ls res)) (sllen (reSplit (rePat yamlRE) in (- 1)))))           [C05]
 //@   loop 1
